@@ -30,10 +30,11 @@ structure Inv (c : Cfg) (s : St) : Prop where
   cons : ∀ w, w < s.next → w ∈ s.list ∨ w ∈ s.fresh ∨ w ∈ s.out ∨ w ∈ s.closed
   closedBad : ∀ w, w ∈ s.closed → w ∈ s.bad
   downClosed : s.down = true → ∀ w, w ∈ s.list → w ∈ s.closed
+  idleOpen : s.down = false → ∀ w, w ∈ s.list → w ∉ s.closed
 
 private theorem inv_acqCtxDead {c : Cfg} {s s' : St}  (hc : c.skipUncounted = true) (h : Inv c s)
     (hs : step c s (.acqCtxDead) = some s') : Inv c s' := by
-  obtain ⟨h1,h2,h3,h4,h5,h6,h7,h8,h9,h10,h11,h12,h13⟩ := h
+  obtain ⟨h1,h2,h3,h4,h5,h6,h7,h8,h9,h10,h11,h12,h13,h14⟩ := h
   simp only [step, hc, Rv.Pool.discard] at hs
   (repeat' (split at hs)) <;> (first | (simp at hs; done) | skip) <;>
     (simp only [Option.some.injEq] at hs; subst hs) <;>
@@ -41,7 +42,7 @@ private theorem inv_acqCtxDead {c : Cfg} {s s' : St}  (hc : c.skipUncounted = tr
 
 private theorem inv_acqDown {c : Cfg} {s s' : St}  (hc : c.skipUncounted = true) (h : Inv c s)
     (hs : step c s (.acqDown) = some s') : Inv c s' := by
-  obtain ⟨h1,h2,h3,h4,h5,h6,h7,h8,h9,h10,h11,h12,h13⟩ := h
+  obtain ⟨h1,h2,h3,h4,h5,h6,h7,h8,h9,h10,h11,h12,h13,h14⟩ := h
   simp only [step, hc, Rv.Pool.discard] at hs
   (repeat' (split at hs)) <;> (first | (simp at hs; done) | skip) <;>
     (simp only [Option.some.injEq] at hs; subst hs) <;>
@@ -49,7 +50,7 @@ private theorem inv_acqDown {c : Cfg} {s s' : St}  (hc : c.skipUncounted = true)
 
 private theorem inv_acqPop {c : Cfg} {s s' : St} {ok : Bool} (hc : c.skipUncounted = true) (h : Inv c s)
     (hs : step c s (.acqPop ok) = some s') : Inv c s' := by
-  obtain ⟨h1,h2,h3,h4,h5,h6,h7,h8,h9,h10,h11,h12,h13⟩ := h
+  obtain ⟨h1,h2,h3,h4,h5,h6,h7,h8,h9,h10,h11,h12,h13,h14⟩ := h
   simp only [step, hc, Rv.Pool.discard] at hs
   (repeat' (split at hs)) <;> (first | (simp at hs; done) | skip) <;>
     (simp only [Option.some.injEq] at hs; subst hs) <;>
@@ -57,7 +58,7 @@ private theorem inv_acqPop {c : Cfg} {s s' : St} {ok : Bool} (hc : c.skipUncount
 
 private theorem inv_makeRet {c : Cfg} {s s' : St} {alive : Bool} {ok : Bool} (hc : c.skipUncounted = true) (h : Inv c s)
     (hs : step c s (.makeRet alive ok) = some s') : Inv c s' := by
-  obtain ⟨h1,h2,h3,h4,h5,h6,h7,h8,h9,h10,h11,h12,h13⟩ := h
+  obtain ⟨h1,h2,h3,h4,h5,h6,h7,h8,h9,h10,h11,h12,h13,h14⟩ := h
   simp only [step, hc, Rv.Pool.discard] at hs
   (repeat' (split at hs)) <;> (first | (simp at hs; done) | skip) <;>
     (simp only [Option.some.injEq] at hs; subst hs) <;>
@@ -65,7 +66,7 @@ private theorem inv_makeRet {c : Cfg} {s s' : St} {alive : Bool} {ok : Bool} (hc
 
 private theorem inv_makeDead {c : Cfg} {s s' : St}  (hc : c.skipUncounted = true) (h : Inv c s)
     (hs : step c s (.makeDead) = some s') : Inv c s' := by
-  obtain ⟨h1,h2,h3,h4,h5,h6,h7,h8,h9,h10,h11,h12,h13⟩ := h
+  obtain ⟨h1,h2,h3,h4,h5,h6,h7,h8,h9,h10,h11,h12,h13,h14⟩ := h
   simp only [step, hc, Rv.Pool.discard] at hs
   (repeat' (split at hs)) <;> (first | (simp at hs; done) | skip) <;>
     (simp only [Option.some.injEq] at hs; subst hs) <;>
@@ -73,7 +74,7 @@ private theorem inv_makeDead {c : Cfg} {s s' : St}  (hc : c.skipUncounted = true
 
 private theorem inv_dropFresh {c : Cfg} {s s' : St} {w : Nat} (hc : c.skipUncounted = true) (h : Inv c s)
     (hs : step c s (.dropFresh w) = some s') : Inv c s' := by
-  obtain ⟨h1,h2,h3,h4,h5,h6,h7,h8,h9,h10,h11,h12,h13⟩ := h
+  obtain ⟨h1,h2,h3,h4,h5,h6,h7,h8,h9,h10,h11,h12,h13,h14⟩ := h
   simp only [step, hc, Rv.Pool.discard] at hs
   (repeat' (split at hs)) <;> (first | (simp at hs; done) | skip) <;>
     (simp only [Option.some.injEq] at hs; subst hs) <;>
@@ -81,7 +82,7 @@ private theorem inv_dropFresh {c : Cfg} {s s' : St} {w : Nat} (hc : c.skipUncoun
 
 private theorem inv_store {c : Cfg} {s s' : St} {w : Nat} (hc : c.skipUncounted = true) (h : Inv c s)
     (hs : step c s (.store w) = some s') : Inv c s' := by
-  obtain ⟨h1,h2,h3,h4,h5,h6,h7,h8,h9,h10,h11,h12,h13⟩ := h
+  obtain ⟨h1,h2,h3,h4,h5,h6,h7,h8,h9,h10,h11,h12,h13,h14⟩ := h
   simp only [step, hc, Rv.Pool.discard] at hs
   (repeat' (split at hs)) <;> (first | (simp at hs; done) | skip) <;>
     (simp only [Option.some.injEq] at hs; subst hs) <;>
@@ -89,7 +90,7 @@ private theorem inv_store {c : Cfg} {s s' : St} {w : Nat} (hc : c.skipUncounted 
 
 private theorem inv_storeDead {c : Cfg} {s s' : St}  (hc : c.skipUncounted = true) (h : Inv c s)
     (hs : step c s (.storeDead) = some s') : Inv c s' := by
-  obtain ⟨h1,h2,h3,h4,h5,h6,h7,h8,h9,h10,h11,h12,h13⟩ := h
+  obtain ⟨h1,h2,h3,h4,h5,h6,h7,h8,h9,h10,h11,h12,h13,h14⟩ := h
   simp only [step, hc, Rv.Pool.discard] at hs
   (repeat' (split at hs)) <;> (first | (simp at hs; done) | skip) <;>
     (simp only [Option.some.injEq] at hs; subst hs) <;>
@@ -97,7 +98,7 @@ private theorem inv_storeDead {c : Cfg} {s s' : St}  (hc : c.skipUncounted = tru
 
 private theorem inv_storeDeadU {c : Cfg} {s s' : St}  (hc : c.skipUncounted = true) (h : Inv c s)
     (hs : step c s (.storeDeadU) = some s') : Inv c s' := by
-  obtain ⟨h1,h2,h3,h4,h5,h6,h7,h8,h9,h10,h11,h12,h13⟩ := h
+  obtain ⟨h1,h2,h3,h4,h5,h6,h7,h8,h9,h10,h11,h12,h13,h14⟩ := h
   simp only [step, hc, Rv.Pool.discard] at hs
   (repeat' (split at hs)) <;> (first | (simp at hs; done) | skip) <;>
     (simp only [Option.some.injEq] at hs; subst hs) <;>
@@ -105,7 +106,7 @@ private theorem inv_storeDeadU {c : Cfg} {s s' : St}  (hc : c.skipUncounted = tr
 
 private theorem inv_storeCtx {c : Cfg} {s s' : St}  (hc : c.skipUncounted = true) (h : Inv c s)
     (hs : step c s (.storeCtx) = some s') : Inv c s' := by
-  obtain ⟨h1,h2,h3,h4,h5,h6,h7,h8,h9,h10,h11,h12,h13⟩ := h
+  obtain ⟨h1,h2,h3,h4,h5,h6,h7,h8,h9,h10,h11,h12,h13,h14⟩ := h
   simp only [step, hc, Rv.Pool.discard] at hs
   (repeat' (split at hs)) <;> (first | (simp at hs; done) | skip) <;>
     (simp only [Option.some.injEq] at hs; subst hs) <;>
@@ -113,7 +114,7 @@ private theorem inv_storeCtx {c : Cfg} {s s' : St}  (hc : c.skipUncounted = true
 
 private theorem inv_close {c : Cfg} {s s' : St}  (hc : c.skipUncounted = true) (h : Inv c s)
     (hs : step c s (.close) = some s') : Inv c s' := by
-  obtain ⟨h1,h2,h3,h4,h5,h6,h7,h8,h9,h10,h11,h12,h13⟩ := h
+  obtain ⟨h1,h2,h3,h4,h5,h6,h7,h8,h9,h10,h11,h12,h13,h14⟩ := h
   simp only [step, hc, Rv.Pool.discard] at hs
   (repeat' (split at hs)) <;> (first | (simp at hs; done) | skip) <;>
     (simp only [Option.some.injEq] at hs; subst hs) <;>
@@ -121,7 +122,7 @@ private theorem inv_close {c : Cfg} {s s' : St}  (hc : c.skipUncounted = true) (
 
 private theorem inv_breakWire {c : Cfg} {s s' : St} {w : Nat} (hc : c.skipUncounted = true) (h : Inv c s)
     (hs : step c s (.breakWire w) = some s') : Inv c s' := by
-  obtain ⟨h1,h2,h3,h4,h5,h6,h7,h8,h9,h10,h11,h12,h13⟩ := h
+  obtain ⟨h1,h2,h3,h4,h5,h6,h7,h8,h9,h10,h11,h12,h13,h14⟩ := h
   simp only [step, hc, Rv.Pool.discard] at hs
   (repeat' (split at hs)) <;> (first | (simp at hs; done) | skip) <;>
     (simp only [Option.some.injEq] at hs; subst hs) <;>
@@ -129,7 +130,7 @@ private theorem inv_breakWire {c : Cfg} {s s' : St} {w : Nat} (hc : c.skipUncoun
 
 private theorem inv_closeWire {c : Cfg} {s s' : St} {w : Nat} (hc : c.skipUncounted = true) (h : Inv c s)
     (hs : step c s (.closeWire w) = some s') : Inv c s' := by
-  obtain ⟨h1,h2,h3,h4,h5,h6,h7,h8,h9,h10,h11,h12,h13⟩ := h
+  obtain ⟨h1,h2,h3,h4,h5,h6,h7,h8,h9,h10,h11,h12,h13,h14⟩ := h
   simp only [step, hc, Rv.Pool.discard] at hs
   (repeat' (split at hs)) <;> (first | (simp at hs; done) | skip) <;>
     (simp only [Option.some.injEq] at hs; subst hs) <;>
@@ -137,7 +138,7 @@ private theorem inv_closeWire {c : Cfg} {s s' : St} {w : Nat} (hc : c.skipUncoun
 
 private theorem inv_acqNew {c : Cfg} {s s' : St} (h : Inv c s)
     (hs : step c s (.acqNew) = some s') : Inv c s' := by
-  obtain ⟨h1,h2,h3,h4,h5,h6,h7,h8,h9,h10,h11,h12,h13⟩ := h
+  obtain ⟨h1,h2,h3,h4,h5,h6,h7,h8,h9,h10,h11,h12,h13,h14⟩ := h
   simp only [step] at hs
   split at hs
   · rename_i hg
@@ -150,7 +151,7 @@ private theorem inv_acqNew {c : Cfg} {s s' : St} (h : Inv c s)
 
 private theorem inv_removeIdle {c : Cfg} {s s' : St} (h : Inv c s)
     (hs : step c s (.removeIdle) = some s') : Inv c s' := by
-  obtain ⟨h1,h2,h3,h4,h5,h6,h7,h8,h9,h10,h11,h12,h13⟩ := h
+  obtain ⟨h1,h2,h3,h4,h5,h6,h7,h8,h9,h10,h11,h12,h13,h14⟩ := h
   simp only [step, Option.some.injEq] at hs; subst hs
   have hmem : ∀ n w, w ∈ s.list ↔ (w ∈ s.list.take n ∨ w ∈ s.list.drop n) := by
     intro n w; rw [← List.mem_append, List.take_append_drop]
@@ -184,6 +185,14 @@ private theorem inv_removeIdle {c : Cfg} {s s' : St} (h : Inv c s)
     · exact Or.inr (h12 w hw)
   case downClosed =>
     intro hd w hw; exact Or.inr (h13 hd w (List.mem_of_mem_drop hw))
+  case idleOpen =>
+    intro hd w hw hb
+    have hnd : (s.list.take (s.list.length - min c.minSize s.list.length) ++
+        s.list.drop (s.list.length - min c.minSize s.list.length)).Nodup := by
+      rw [List.take_append_drop]; exact h4
+    rcases hb with hb | hb
+    · exact (List.nodup_append.1 hnd).2.2 w hb w hw rfl
+    · exact h14 hd w (List.mem_of_mem_drop hw) hb
 
 
 theorem inv_step {c : Cfg} {s s' : St} {op : Op} (hc : c.skipUncounted = true) (h : Inv c s)
@@ -362,6 +371,14 @@ theorem settled {c : Cfg} {s : St} (hc : c.skipUncounted = true) (h : Reach c s)
   refine ⟨?_, fun w hw => ?_⟩
   · have := size_accounting hc h hup; simp [inUse, idle, ho, hf, hm, hd] at this; exact this
   · have := returned_or_closed hc h w hw; simpa [ho, hf] using this
+
+/-- while the pool is up, no idle wire has been closed: whatever the pool closes (idle
+    cleanup, broken wires, `Store` of a bad wire) has left the list in the same locked region,
+    so a wire stored meanwhile can never be the one that gets closed (what `!race-cleanup`
+    observes on the real pool). -/
+theorem idle_not_closed {c : Cfg} {s : St} (hc : c.skipUncounted = true) (h : Reach c s)
+    (hup : s.down = false) : ∀ w, w ∈ s.list → w ∉ s.closed :=
+  (inv_reach hc h).idleOpen hup
 
 /-- `down` is never reset. -/
 theorem down_stable {c : Cfg} {s s' : St} {op : Op} (hs : step c s op = some s') (hd : s.down = true) :
